@@ -21,6 +21,9 @@ import (
 	"bytes"
 	"fmt"
 	"math/big"
+	"os"
+	"runtime"
+	"time"
 	"sort"
 	"strings"
 	"testing"
@@ -28,9 +31,17 @@ import (
 	"verif/internal/h"
 )
 
-func TestMain(m *testing.M) { h.Main(m) }
+func TestMain(m *testing.M) {
+	// A case is ~0.3 MB of short-lived garbage over a tiny live heap and the search itself is
+	// single-threaded: 16 GC workers in each of the 16 shard processes cost 2-3x in lock/futex
+	// and madvise time (measured), one P does not.
+	runtime.GOMAXPROCS(1)
+	h.Main(m)
+}
 
 const prop = "C10"
+
+var timing = os.Getenv("C10_TIMING") != ""
 
 // Signatures of the defects already confirmed by probes (DESIGN.md §2.4) and found again by
 // this check. Each names one root cause / failing shape.
@@ -129,7 +140,7 @@ type tcore struct {
 	createLowGas bool // CREATE/CREATE2 executed in a frame whose contract.Gas is tiny (S15 shape)
 	// a contract created in this transaction created again / an address was created twice: both
 	// depend on the nonce a fresh contract starts with (S16 shape)
-	createByCreated, recreate bool
+	createByCreated, recreate, hashOfCreated bool
 	writes       bool
 	nested       bool
 	creates      bool
@@ -138,6 +149,8 @@ type tcore struct {
 }
 
 const maxTrace = 3000
+
+var addrMask = new(big.Int).Sub(new(big.Int).Lsh(big.NewInt(1), 160), big.NewInt(1))
 
 func newCore() *tcore { return &tcore{sdAddrs: map[string]bool{}} }
 
@@ -179,6 +192,15 @@ func (c *tcore) step(s stepInfo) {
 	switch {
 	case s.op == 0x5a:
 		c.sawGas = true
+	case s.op == 0x3f:
+		if len(c.createdAddrs) > 0 {
+			a := fmt.Sprintf("%040x", new(big.Int).And(s.back(0), addrMask))
+			for _, prev := range c.createdAddrs {
+				if prev == a {
+					c.hashOfCreated = true
+				}
+			}
+		}
 	case isWriteOp(s.op):
 		c.writes = true
 		if inStatic {
@@ -370,7 +392,14 @@ func runCase(leg string) func(c EVMCase, x *h.Ctx) {
 		} else {
 			x.Label("gen:grammar")
 		}
-		it := runInTree(c, leg == "deployed")
+		var it *result
+		t0 := time.Now()
+		defer func() {
+			if d := time.Since(t0); timing && d > 10*time.Millisecond {
+				fmt.Printf("SLOW %v steps=%d depth=%d budget=%v mutated=%v\n", d, it.tr.steps, it.tr.maxDepth, it.tr.budget, c.Mutated)
+			}
+		}()
+		it = runInTree(c, leg == "deployed")
 		if it.panicked != nil {
 			if it.tr.gov {
 				x.Fail(sigGovPanic, "in-tree EVM panicked while a contract called the governance precompile 0xfe: %v\n%s", it.panicked, it.stack)
@@ -419,9 +448,9 @@ func runCase(leg string) func(c EVMCase, x *h.Ctx) {
 					nonceHit = d.msg
 					continue
 				}
-				// a created contract with nonce 0, no balance and no code is "empty" and swept by
+				// a created contract with nonce 0, no balance and no code (even with storage) is "empty" and swept by
 				// Finalise(true); with nonce 1 it stays
-				if ra, ok := rf.accounts[d.addr]; d.kind == "account" && ok && isCreatedIn(d.addr, it.tr) && ra.Nonce == 1 && ra.Balance == "0" && ra.Code == "" && len(ra.Storage) == 0 {
+				if ra, ok := rf.accounts[d.addr]; d.kind == "account" && ok && isCreatedIn(d.addr, it.tr) && ra.Nonce == 1 && ra.Balance == "0" && ra.Code == "" {
 					if _, in := it.accounts[d.addr]; !in {
 						nonceHit = d.msg
 						continue
@@ -449,9 +478,9 @@ func runCase(leg string) func(c EVMCase, x *h.Ctx) {
 			case it.tr.createLowGas:
 				sig = sigS15
 				detail = "a CREATE/CREATE2 executed in a frame reached by a CALL-family instruction (callee contract.Gas is 0 because baseGas* never set callGasTemp, the code-deposit charge is taken from it): " + detail
-			case leg == "deployed" && (it.tr.createByCreated || it.tr.recreate):
+			case leg == "deployed" && (it.tr.createByCreated || it.tr.recreate || it.tr.hashOfCreated):
 				sig = sigS16Nonce
-				detail = fmt.Sprintf("as deployed (MainnetChainConfig, block %d: pre-EIP-158 rules) a contract created in this transaction starts with nonce 0 and then created again / its address was created a second time: ", c.Number) + detail
+				detail = fmt.Sprintf("as deployed (MainnetChainConfig, block %d: pre-EIP-158 rules) a contract created in this transaction starts with nonce 0 and then created again / its address was created a second time / its EXTCODEHASH was taken: ", c.Number) + detail
 			case leg == "deployed" && it.tr.staticWrite:
 				sig = sigS16Static
 				detail = fmt.Sprintf("as deployed (MainnetChainConfig, block %d: pre-Byzantium rules) a state-modifying instruction executed inside a STATICCALL: ", c.Number) + detail
